@@ -38,6 +38,15 @@ ASSUMPTIONS = {
         "floating point: apply_filters' ceil(samples x min_freq) is checked by Kani with CBMC's IEEE-754 model for samples <= 4",
         "bounded (thorough tier only, never counted as proved): update_counts on a 2x2 table",
     ],
+    "C07": [
+        "BOUNDED: MergeSkaDict::extend / merge / append are checked for at most 2 split k-mers (symbolic values) and at most 2 samples per operand",
+        "R3 (unit mergefrag_k, assumed contracts on dependencies): hashbrown::HashMap behaves as an association list without duplicate keys (entry / and_modify / or_insert_with / insert / len / iteration), std Vec as a sequence (inline array of <= 4 elements: push, extend_from_slice, extend, index, iter, vec![x; n]), String as a value that can be cloned, swapped, taken and tested for emptiness; `panic!` ends the path",
+        "R1: the bound `IntT: UInt` of the impl blocks is replaced by `PartialEq + Copy + Default` (the three functions only copy and compare k-mers); instantiated at u64",
+        "call-site preconditions assumed by the harnesses: rows have length n_samples; merge: a dictionary without k-mers has no names yet (SkaDict::new refuses a sample without k-mers); append: the sample's slot is still empty",
+        "the Kani wrapper harness replaces MergeSkaArray::load, ::to_dict, MergeSkaDict::extend and save_skf by stubs: it checks only the order, operands and number of the calls generic_modes::merge makes (one and two further files)",
+        "unverified glue: MergeSkaArray::to_dict / ::new around the proved cell closures (hashbrown iteration, ndarray push_row), that `ska build` (rayon join over multi_append) calls append / merge with disjoint sample slots, serialisation (C09)",
+        "tool defect worked around (DESIGN.md §9.2b): Kani 0.68 / CBMC 6.11 lose a write made through `&mut arr[i].field_array` for an inline array of structs and symbolic i; the stand-in map takes such references at constant indices only",
+    ],
     "C12": KMER_COMMON + [
         "not decided: KmerFilter::filter's hashbrown count table (the `== min_count` threshold); the < 0.1% collision statement is probabilistic",
         "the read-filter condition of add_file_kmers (quality rule consulted before, and as a guard of, the counting filter) is checked by Kani on the lifted condition with KmerFilter::filter stubbed, for one read of length k = 5; the needletail loop and the dictionary insertion around it are unverified glue",
@@ -46,7 +55,7 @@ ASSUMPTIONS = {
         "assumed contracts u64::rotate_left/rotate_right == shift formulas (assume_specification) - discharged for every value by the Kani harness rotate_spec_all_values",
     ],
     "C13": KMER_COMMON + [
-        "unverified glue: HashSet::from_iter(weed_ref.kmer_iter()) (hashbrown: the set of the listed k-mers), the zip over (split_kmers, rows, counts) in MergeSkaArray::weed, the three field assignments after its loop, the frame `names unchanged`",
+        "bounded (never counted as proved), on fragments lifted into the real crate with `HashSet` re-bound by name resolution to a duplicate-free vector: the weed set == the k-mers listed by RefSka::kmer_iter for lists of <= 3 k-mers; the whole body of MergeSkaArray::weed (set, zip over (split_kmers, rows, counts), decision, the three field assignments, names/k/strand untouched) on 1 split k-mer x 2 samples and 1 weed k-mer; beyond those bounds the zip and the assignments are unverified glue",
         "R3 (unit weedfrag): hashbrown::HashSet -> std HashSet; the Array2 under construction -> RowsShim whose push_row is an external stub with the contract `appends the row`; a row view -> &Vec<u8>",
         "the Kani wrapper harness replaces RefSka::new, MergeSkaArray::weed, ::filter and ::save by recording stubs (their own behaviour is decided elsewhere or not at all): it checks only which of them generic_modes::weed calls, in which order and with which arguments; samples <= 4, every f64 min_freq in [0,1], k in 5..=63",
     ],
